@@ -346,6 +346,10 @@ func (c *wsConn) cancelCtx(req frame) {
 		log.Error("failed to unmarshal channel id in xrpc.ch.val: %s", err)
 		return
 	}
+	if len(params) < 1 {
+		log.Errorf("%s: expected 1 param, got %d", wsCancel, len(params))
+		return
+	}
 
 	var id interface{}
 	if err := json.Unmarshal(params[0].data, &id); err != nil {
@@ -370,6 +374,10 @@ func (c *wsConn) handleChanMessage(frame frame) {
 	var params []param
 	if err := json.Unmarshal(frame.Params, &params); err != nil {
 		log.Error("failed to unmarshal channel id in xrpc.ch.val: %s", err)
+		return
+	}
+	if len(params) < 2 {
+		log.Errorf("%s: expected 2 params, got %d", chValue, len(params))
 		return
 	}
 
@@ -399,6 +407,10 @@ func (c *wsConn) handleChanClose(frame frame) {
 	var params []param
 	if err := json.Unmarshal(frame.Params, &params); err != nil {
 		log.Error("failed to unmarshal channel id in xrpc.ch.val: %s", err)
+		return
+	}
+	if len(params) < 1 {
+		log.Errorf("%s: expected 1 param, got %d", chClose, len(params))
 		return
 	}
 
